@@ -187,7 +187,10 @@ func DecodeIdFromList(cborData []byte) (int, error) {
 	if listLen == 0 {
 		return 0, errors.New("cannot return first item from empty list")
 	}
-	if listLen < int(CborMaxUintSimple) {
+	// The first item sits at offset 1 only when the list header is a single
+	// byte, i.e. the length is encoded in the header byte itself
+	if listLen < int(CborMaxUintSimple) &&
+		cborData[0] <= (CborTypeArray+CborMaxUintSimple) {
 		if cborData[1] <= CborMaxUintSimple {
 			return int(cborData[1]), nil
 		}
